@@ -125,6 +125,32 @@ def rebuild(s3, *, point_fn=None, residue_fn=None, keep=None, atom_keep=None, at
     return Structure3D(residues)
 
 
+def one_identity(s3, which):
+    """the same residues identified the way a reader identifies them when a file carries only one set of identity items:
+    'label-only' (mmCIF without auth_asym_id / auth_seq_id: auth is None) or 'auth-only' (PDB-like: label is None).
+    Returns the structure unchanged when that would leave a residue without identity or make two residues alike."""
+    from rnapolis.tertiary import Atom, Residue3D, Structure3D
+
+    keys = set()
+    for r in s3.residues:
+        if which == "label-only":
+            if r.label is None or (r.auth is not None and r.auth.icode):
+                return s3
+            keys.add((r.model, r.label.chain, r.label.number))
+        else:
+            if r.auth is None:
+                return s3
+            keys.add((r.model, r.auth.chain, r.auth.number, r.auth.icode))
+    if len(keys) != len(s3.residues):
+        return s3
+    out = []
+    for r in s3.residues:
+        label, auth = (r.label, None) if which == "label-only" else (None, r.auth)
+        atoms = tuple(Atom(a.entity_id, label, auth, a.model, a.name, a.x, a.y, a.z, a.occupancy) for a in r.atoms)
+        out.append(Residue3D(label, auth, r.model, r.one_letter_name, atoms))
+    return Structure3D(out)
+
+
 @functools.lru_cache(maxsize=None)
 def neighbour_pairs(fn):
     """residue index pairs of a corpus file whose atoms come within 4.5 A (candidates for any interaction)"""
